@@ -34,7 +34,8 @@ EXHAUSTIVE = {
 }
 FLOORS = {
     "quick": {"cases_commit": 5000, "cases_abort": 10000, "cases_abort_baseexception": 5000, "reads_checked": 20000,
-              "read_through_after_delete": 1000, "open_block_events": 20000, "reads_of_buffered_empty_value": 500, "blocks_inside_except_handler": 5000, "big_batches": 10},
+              "read_through_after_delete": 1000, "open_block_events": 20000, "reads_of_buffered_empty_value": 500, "blocks_inside_except_handler": 5000, "big_batches": 10,
+              "actions_before_block": 2000},
     "thorough": {"cases_commit": 100000, "cases_abort": 300000, "cases_abort_baseexception": 100000, "reads_checked": 500000,
                  "read_through_after_delete": 20000, "open_block_events": 500000,
                  "reads_of_buffered_empty_value": 5000, "blocks_inside_except_handler": 50000, "big_batches": 50},
@@ -82,11 +83,35 @@ def run_case(case, ctx):
             return C[k]
         return W.get(k)
 
+    npre = min(case.get("before_block", 0), len(actions), exit_at if exit_at is not None else len(actions))
+
+    def act(i, a):
+        """one action on the ScratchDB, mirrored on the model"""
+        k = a[1].encode()
+        if a[0] == "set":
+            v = a[2].encode()
+            sdb[k] = v
+            C[k] = v
+        elif a[0] == "del":
+            del sdb[k]
+            C[k] = DEL
+
+    # the ScratchDB buffers from construction: the first `before_block` writes / deletes are
+    # made BEFORE the batch_commit block is entered and belong to the batch all the same
+    for i in range(npre):
+        if actions[i][0] in ("set", "del"):
+            act(i, actions[i])
+            ctx.count("actions_before_block")
+            if wrapped.raw() != W:
+                raise Violation("scratch-wrapped-mutated-while-open", "wrapped contents changed by a buffered action before the block")
+
     def block():
         with sdb.batch_commit(do_deletes=dd):
             st["open"] = True
             try:
                 for i, a in enumerate(actions):
+                    if i < npre and a[0] in ("set", "del"):
+                        continue
                     if exit_at == i:
                         raise exc_cls()
                     k = a[1].encode()
@@ -205,7 +230,8 @@ def enumerate_cases(ctx, menu, maxlen, start_idx=0):
                             # BaseException subclass, KeyboardInterrupt, GeneratorExit)
                             yield {"pre": pre, "do_deletes": dd, "actions": [list(a) for a in seq], "exit": ex,
                                    "exc": (idx // ctx.nshards) % len(EXITS),
-                                   "in_handler": (idx // ctx.nshards) % 5 == 0}
+                                   "in_handler": (idx // ctx.nshards) % 5 == 0,
+                                   "before_block": (idx // ctx.nshards) % 3 if (idx // ctx.nshards) % 7 == 0 else 0}
                         idx += 1
 
 
@@ -216,8 +242,10 @@ def run_shard(ctx):
     for k in ("k0", "k1", "k2"):
         # the second value is the EMPTY byte string: a legitimate value that is falsy
         menu5 += [("set", k, "a"), ("set", k, ""), ("del", k), ("get", k), ("in", k)]
+    # writing back exactly the value the wrapped database already holds under that key
+    menu_back = [("set", "k0", "w0"), ("set", "k1", "w1")]
     n = 0
-    for case in enumerate_cases(ctx, menu5, 3 if ctx.tier == "quick" else 4):
+    for case in enumerate_cases(ctx, menu5 + menu_back, 3 if ctx.tier == "quick" else 4):
         if n == 500:
             ctx.sample(case)
         n += 1
@@ -249,13 +277,13 @@ def run_shard(ctx):
         if ctx.full:
             return
     # random longer sequences, including copy()
-    menu = menu5 + [("copy", "k0")] + [("set", k, "b") for k in ("k0", "k1", "k2")]
+    menu = menu5 + [("copy", "k0")] + [("set", k, "b") for k in ("k0", "k1", "k2")] + menu_back + [("set", "k2", "w2")]
     for i in range(10000 if ctx.tier == "quick" else 60000):
         L = rnd.randint(4, 12)
         seq = [list(rnd.choice(menu)) for _ in range(L)]
         case = {"pre": rnd.choice(PRE), "do_deletes": bool(rnd.randrange(2)), "actions": seq,
                 "exit": rnd.choice([None, None] + list(range(L + 1))), "exc": rnd.randrange(len(EXITS)),
-                "in_handler": rnd.random() < 0.2}
+                "in_handler": rnd.random() < 0.2, "before_block": rnd.choice([0, 0, 0, 1, 2, 3])}
         if i == 0:
             ctx.sample(case)
         run_case_guarded(mod, case, ctx)
